@@ -256,3 +256,31 @@ Proof.
     exists i, cov. split; [exact Er|]. split; [rewrite Hexp; exact Ho|lia].
 Qed.
 End InterestRoundtrip.
+
+Section InterestSegmentation.
+Variable sha256 : bytes -> bytes.
+Hypothesis sha256_len : forall x, length (sha256 x) = 32%nat.
+Variable sign : list bytes -> option bytes.
+
+Corollary interest_any_reader nm cfg app sg si est e :
+  let need := match app with Some _ => true | None => false end in
+  let pre := strip_digest nm in
+  let nm1 := if need then pre ++ [mkc 2 zeros32] else pre in
+  int_siginfo sg need = Ok (si, est) -> name_ok pre -> (app = None -> existsb is_digest_comp pre = false) ->
+  iconfig_ok cfg -> signer_ok sg -> signer_int_ok sg -> int_fits nm1 cfg app si est ->
+  make_interest sha256 sign nm cfg app sg = Ok e ->
+  exists svo, forall segs, concat segs = concat (e_wire e) ->
+    exists i1 c1 i2 c2,
+      read_interest sha256 (BR (concat segs) 0) = ROk i1 c1 /\ read_interest sha256 (new_wire_reader segs) = ROk i2 c2 /\
+      obs_int i1 = expected_int (e_final e) cfg app sg svo /\ obs_int i2 = expected_int (e_final e) cfg app sg svo /\
+      (0 < est -> concat c1 = concat (e_cov e) /\ concat c2 = concat (e_cov e)).
+Proof.
+  intros need pre nm1 Hsi Hn Hnod Hcfg Hsg Hsgi Hfit Hmk.
+  destruct (interest_roundtrip_thm sha256 sha256_len sign nm cfg app sg si est e Hsi Hn Hnod Hcfg Hsg Hsgi Hfit Hmk)
+    as (svo & _ & _ & _ & _ & Hr).
+  exists svo. intros segs Hs.
+  destruct (Hr (BR (concat segs) 0)) as (i1 & c1 & E1 & O1 & C1); [rewrite <- Hs; apply view_br; simpl; lia|].
+  destruct (Hr (new_wire_reader segs)) as (i2 & c2 & E2 & O2 & C2); [rewrite <- Hs; apply view_wr_start|].
+  exists i1, c1, i2, c2. repeat split; auto.
+Qed.
+End InterestSegmentation.
